@@ -295,10 +295,10 @@ def _tlc_g1(fam, wd, cfg, alphabet, invariants, workers, view=False,
                        workers=workers)
 
 
-def _tlc_g2(fam, wd, cfg, alphabet, gf, workers, tag):
+def _tlc_g2(fam, wd, cfg, alphabet, gf, workers, tag, complete=True):
     mod, cfgc = mc_module(fam, tag, fam['graph'], cfg, alphabet)
-    cfgt = 'INIT GInit\nNEXT GNext\n' + cfgc + \
-        'INVARIANT AllEdgesOK\nINVARIANT AlphabetComplete\n'
+    cfgt = 'INIT GInit\nNEXT GNext\n' + cfgc + 'INVARIANT AllEdgesOK\n' + \
+        ('INVARIANT AlphabetComplete\n' if complete else '')
     return tlc.run_tlc(os.path.join(wd, tag), tag, cfgt,
                        env={'GRAPH_FILE': gf, 'WITH_GHOSTS': '0'},
                        modules={tag: mod}, workers=workers, heap='8g')
@@ -335,16 +335,37 @@ def check_config(v, name, invariants, dev, variants=None):
         f1 = ex.submit(_tlc_g1, fam, wd, cfg, alphabet, base_inv + invariants, 6)
         f3 = ex.submit(_tlc_g1, fam, wd, cfg, alphabet, [], 4, True, 'MCV')
         graphs = {}
+        # the implementation may not have more abstract states than the
+        # specification: exploring further is pointless (and, for a broken
+        # tree, possibly endless) - the graph explored so far is validated
+        r3 = f3.result()
+        budget = 2 * r3.distinct + 1000 if not r3.error else 200000
         for var in variants:
             c2 = dict(cfg, asyncio=(var == 'asyncio'))
-            g = explore.explore(_Factory(fam_name, c2), alphabet, en,
-                                workers=12)
+            try:
+                g = explore.explore(_Factory(fam_name, c2), alphabet, en,
+                                    workers=12, max_states=budget,
+                                    partial_ok=True)
+            except explore.Nondeterminism as nd:
+                # never happens on a tree that follows the specification
+                # (every action is a function of the history there)
+                rep = {'config': name, 'impl': var,
+                       'verdict': 'the same history replayed on a fresh '
+                       'object ends in a different abstract state',
+                       'path_to_source_state': nd.path,
+                       'first_replay': nd.first, 'second_replay': nd.second}
+                for _v, (_g, _gf, fut) in graphs.items():
+                    fut.cancel()
+                f1.cancel()
+                f3.cancel()
+                return ('REJECT', rep)
             gf = os.path.join(wd, 'graph_%s.json' % var)
             with open(gf, 'w') as f:
                 json.dump({'nodes': g['nodes'], 'out': g['out'],
                            'edges': g['edges']}, f)
             graphs[var] = (g, gf, ex.submit(_tlc_g2, fam, wd, cfg, alphabet, gf, 4,
-                                            'MCG_' + var))
+                                            'MCG_' + var,
+                                            not g.get('partial')))
             v.log('  [%s/%s] implementation graph: %d states, %d edges '
                   '(depth %d, %.1fs)' % (name, var, len(g['nodes']),
                                          len(g['edges']), g['depth'],
@@ -409,6 +430,18 @@ def check_config(v, name, invariants, dev, variants=None):
                 v._last_reject = rep
                 return ('REJECT', rep)
             v.cov['traces_validated_against_impl'] += len(g['edges'])
+            if g.get('partial'):
+                clean = False
+                v.violation(
+                    'the implementation reaches more abstract states than '
+                    'the specification has (config %s/%s: stopped at %d, '
+                    'specification %d)' % (name, var, len(g['nodes']),
+                                           r3.distinct),
+                    {'config': name, 'impl': var,
+                     'a_state_beyond': g['nodes'][-1],
+                     'path': explore.path_actions(g, alphabet,
+                                                  len(g['nodes']))})
+                continue
             if len(g['nodes']) != r3.distinct:
                 v.error('G3 count mismatch on %s/%s: impl %d vs spec %d with '
                         'every edge valid (bounds out of sync)' % (
